@@ -93,7 +93,8 @@ def shell_for(m, target, rng):
     d = det6(m)
     K = int(round((target * math.sqrt(d) / 4.18879) ** (2.0 / 3.0)))
     K = max(K, 8)
-    Kmin = rng.choice([0, 0, max(1, K // 4), max(1, K // 3)])
+    # 0 (everything), a lower bound between occupied shells, or a THIN shell holding only Q* = K (often one family, sometimes none)
+    Kmin = rng.choice([0, 0, max(1, K // 4), max(1, K // 3), K - 1])
     return K, Kmin
 
 
@@ -137,6 +138,8 @@ def rows_to_int(H, ncol_expected=None):
     """float rows -> list of int triples (None if any index is not an integer within 1e-9)"""
     import numpy as np
     H = np.asarray(H, dtype=float)
+    if H.size == 0:
+        return []                      # an empty shell is a legitimate answer
     if H.ndim != 2 or H.shape[1] < 3:
         return None
     hk = H[:, :3]
@@ -157,6 +160,11 @@ def call_gen(a):
     st = np.random.get_state()
     try:
         np.random.seed(npseed)
+        # the same numbers in the containers / integer types the API accepts
+        kw = dict(kw)
+        if "sgno" in kw and npseed % 3 == 0:
+            kw["sgno"] = np.int64(kw["sgno"])
+        cell = [list, lambda c: np.array(c, dtype=float)][npseed % 2](cell)      # documented: a list; arrays are what callers pass
         H = getattr(mod, func)(cell, smin, smax, output_stl=ostl, **kw)
         return np.asarray(H, dtype=float).tolist()
     except Exception as ex:
